@@ -466,7 +466,12 @@ impl<T: Object + DataSize> Lazy<T> {
     pub fn load(&self, resolve: &impl Resolve) -> Result<MaybeRef<T>> {
         self.cache.get_or_try_init(|| {
             match self.primitive {
-                Primitive::Reference(r) => resolve.get(Ref::new(r)).map(MaybeRef::Indirect),
+                Primitive::Reference(r) => match resolve.get(Ref::new(r)) {
+                    Ok(val) => Ok(MaybeRef::Indirect(val)),
+                    // a reference to a missing object is a reference to null
+                    Err(ref e) if e.is_missing_object(r.id) => T::from_primitive(Primitive::Null, resolve).map(|o| MaybeRef::Direct(Arc::new(o))),
+                    Err(e) => Err(e)
+                },
                 ref p => T::from_primitive(p.clone(), resolve).map(|o| MaybeRef::Direct(Arc::new(o))),
             }
         }).cloned()
@@ -706,7 +711,16 @@ impl<V: Object> Object for HashMap<Name, V> {
             Primitive::Dictionary (dict) => {
                 let mut new = Self::new();
                 for (key, val) in dict.iter() {
-                    new.insert(key.clone(), V::from_primitive(val.clone(), resolve)?);
+                    let referenced = match *val {
+                        Primitive::Reference(r) => Some(r.id),
+                        _ => None
+                    };
+                    match V::from_primitive(val.clone(), resolve) {
+                        Ok(v) => { new.insert(key.clone(), v); }
+                        // a reference to a missing object is a reference to null: no entry
+                        Err(ref e) if referenced.map_or(false, |id| e.is_missing_object(id)) => {}
+                        Err(e) => return Err(e)
+                    }
                 }
                 Ok(new)
             }
@@ -742,16 +756,25 @@ impl<T: Object> Object for Option<T> {
     fn from_primitive(p: Primitive, resolve: &impl Resolve) -> Result<Self> {
         match p {
             Primitive::Null => Ok(None),
-            p => match T::from_primitive(p, resolve) {
+            p => {
+                let referenced = match p {
+                    Primitive::Reference(r) => Some(r.id),
+                    _ => None
+                };
+                match T::from_primitive(p, resolve) {
                 Ok(p) => Ok(Some(p)),
                 // References to non-existing objects ought not to be an error
                 Err(PdfError::NullRef {..}) => Ok(None),
                 Err(PdfError::FreeObject {..}) => Ok(None),
+                // (by the time it arrives here the error is usually wrapped, and an object number
+                // beyond the cross-reference table is reported differently)
+                Err(ref e) if referenced.map_or(false, |id| e.is_missing_object(id)) => Ok(None),
                 Err(e) if resolve.options().allow_error_in_option => {
                     warn!("ignoring {:?}", e);
                     Ok(None)
                 }
                 Err(e) => Err(e)
+                }
             }
         }
     }
